@@ -256,9 +256,9 @@ func driftedOf(nc *v1.NodeClaim) string {
 func c15World(r *ev.Rec) {
 	reqs := c15PoolReqs()
 	shapes := []int{0, 1, 2, 3} // c13 pod shapes: small, key-in-2, key-notin-2, key-gt-1
-	maxLaunch := 4
+	maxLaunch := 12
 	if r.Tier == "thorough" {
-		maxLaunch = 12
+		maxLaunch = 24
 	}
 	r.Extra["nodepool_requirement_atoms"] = len(reqs)
 	enum.Run(r, enum.Size(len(reqs), len(shapes)), func(idx int64, l *ev.Local) {
@@ -290,6 +290,45 @@ func c15World(r *ev.Rec) {
 			l.Outcome("no-nodeclaim")
 			return
 		}
+		// (0) ordering: the NodePool is annotated, a hashed field is edited, and a NodeClaim is created BEFORE the hash
+		// controller has caught up; once it has, that NodeClaim — built from the current template — must not be drifted
+		func() {
+			np := world.NodePool("default", reqsMod(req), labelMod("env", "prod"))
+			c := SchedCase{Catalog: "K4", MinV: options.MinValuesPolicyStrict, Pref: options.PreferencePolicyRespect, Workers: 1}
+			w := world.New(world.Options{})
+			env := &SchedEnv{W: w, Case: c, Catalog: catalogs["K4"], Volumes: map[string][]oracle.Volume{}, Pools: []*v1.NodePool{np}}
+			w.CP.Catalog[""] = world.BuildCatalog(env.Catalog)
+			w.Add(world.NodeClass(), np)
+			hc := nodepoolhash.NewController(w.Client, w.CP)
+			cur := &v1.NodePool{}
+			must(w.Raw.Get(w.Ctx, clientKey("", "default"), cur))
+			_, _ = hc.Reconcile(w.Ctx, cur)
+			must(w.Raw.Get(w.Ctx, clientKey("", "default"), cur))
+			cur.Spec.Template.Labels["env"] = "dev" // hashed edit; the hash controller has not seen it yet
+			w.EnvUpdate(cur)
+			p := world.Pod("p0", c13PodShapes[shapes[d[1]]].cpu, c13Pod(shapes[d[1]], req.Key)...)
+			env.Pending = []*corev1.Pod{p}
+			w.Add(p)
+			w.SyncCluster()
+			out := env.runPass(explore.Replay(nil), 1)
+			if out.Err != nil || len(out.Created) != 1 || out.Created[0] == nil {
+				return
+			}
+			nc := out.Created[0]
+			lc := lifecycle.NewController(w.Clock, w.Client, w.CP, w.Rec, nodepoolhealth.NewState(), nil)
+			launch, ok := advance(w, lc, nc.Name, "initialized", 0)
+			if !ok {
+				return
+			}
+			must(w.Raw.Get(w.Ctx, clientKey("", "default"), cur))
+			_, _ = hc.Reconcile(w.Ctx, cur) // the hash controller catches up
+			dc := nodeclaimdisruption.NewController(w.Clock, w.Client, w.CP)
+			_, _ = dc.Reconcile(w.Ctx, w.GetNodeClaim(nc.Name))
+			l.Eval()
+			if got := driftedOf(w.GetNodeClaim(nc.Name)); got != "" {
+				l.Violation("self-inflicted drift: "+got+" (NodeClaim created between a template edit and the hash controller's next run)", fmt.Sprintf("NodeClaim created from the CURRENT template right after a hashed edit, launched as %s, is reported Drifted (%s) once the hash controller has caught up  [NodePool requirement {%s}]", launch, got, oracle.ReqString(req)), map[string]any{"nodepool_requirement": req, "launch": launch})
+			}
+		}()
 		k := len(env0.W.CP.Permitted(nc0))
 		if k > maxLaunch {
 			k = maxLaunch
@@ -367,7 +406,7 @@ func c15World(r *ev.Rec) {
 func init() {
 	register("C15", "exploration", func(r *ev.Rec) {
 		r.Rule = "(a) 3 base NodePool templates (full / minimal / zero-valued durations) x every single-field edit from a closed list: edits of template labels, annotations, taints, startupTaints, nodeClassRef.{group,kind,name}, terminationGracePeriod in {unset,0s,30s,1m}, expireAfter in {Never,0s,10m,1h} must change NodePool.Hash(); edits of budgets, requirements, limits, weight, consolidation settings, list/map order, metadata and status must not. " +
-			"(b) every satisfiable single-requirement NodePool on a custom / provider key x pods constraining that key: hash controller -> provisioner -> NodeClaim -> real lifecycle controller with EVERY permitted launch (up to 4/12) -> real nodeclaim.disruption controller: never Drifted when fresh (also 2h later); RequirementsDrifted when the NodePool is edited to exclude the node's zone and cleared when restored; NodePoolDrifted after a hashed edit + real hash controller; not across hash versions. non-trivial = distinct (base, effective edit) / (pool requirement, pod, launch)"
+			"(b) every satisfiable single-requirement NodePool on a custom / provider key x pods constraining that key: hash controller -> provisioner -> NodeClaim -> real lifecycle controller with EVERY permitted launch (up to 4/12) -> real nodeclaim.disruption controller: never Drifted when fresh (also 2h later, and when created between a hashed template edit and the hash controller's next run); RequirementsDrifted when the NodePool is edited to exclude the node's zone and cleared when restored; NodePoolDrifted after a hashed edit + real hash controller; not across hash versions. non-trivial = distinct (base, effective edit) / (pool requirement, pod, launch)"
 		r.Assumptions = []string{"provider-side IsDrifted returns no drift", "NodePools no label value can satisfy are excluded from (b)"}
 		c15Hash(r)
 		c15World(r)
